@@ -99,6 +99,11 @@ fn main() {
                 println!("{:28} {}", k, w);
             }
         }
+        "prescreen" => {
+            // scheduling aid of the checks (child process): native differential run of the corpus on two inputs
+            let tier = args.iter().position(|a| a == "--tier").and_then(|i| args.get(i + 1)).cloned().unwrap_or_else(|| "quick".into());
+            exit(props::prescreen_child(args.get(2).map(|s| s.as_str()).unwrap_or(""), &tier));
+        }
         "memreplay" => {
             // symx memreplay <cell_bytes> <size> <offset> <start> <end> [check|ptr]: native replay of a geometry
             // counterexample of the E5 lemmas through the public Memory API
